@@ -10,7 +10,7 @@ from harness import graphs as G
 from harness import tsresolve as R
 from harness.C07 import RESERVED_NAMES
 
-DAGS = ['single', 'chain2', 'chain3', 'fan', 'diamond', 'tree', 'chain4', 'join']
+DAGS = ['single', 'chain2', 'chain3', 'fan', 'diamond', 'tree', 'chain4', 'join', 'triangle', 'triangle-rev', 'kite']
 SCOPE = {'TypeDependencyGraph::topological_sort_types', 'TypeDependencyGraph::topological_visit'}
 
 
@@ -51,6 +51,8 @@ class C09(C.PipelineCheck):
 
     def scenarios(self, tier):
         for shape in DAGS:
+            if shape == 'kite' and tier != 'thorough':
+                continue
             yield ('dag/%s' % shape, dict(kind='dag', shape=shape))
         for cx in G.EDGE_CTX:
             yield ('edge/%s' % cx, dict(kind='edge', ctx=cx))
@@ -77,6 +79,9 @@ class C09(C.PipelineCheck):
             names = ['HOLE_a', 'Beta', 'Gamma', 'Delta']
             extra = None
             if kind == 'dag':
+                # the sort visits names in alphabetical order: vary which node carries which name (the root's name is symbolic anyway)
+                if ctx.tier == 'thorough' or G.SHAPES[p['shape']][0] <= 3:
+                    names = [names, ['HOLE_a', 'Gamma', 'Beta', 'Delta'], ['HOLE_a', 'Delta', 'Gamma', 'Beta']][e.choose(3)]
                 shape = p['shape']
                 ectx = {}
                 site = ('param', 'return')[e.choose(2)]
